@@ -124,7 +124,7 @@ func HarnessC06AfterEnd() {
 	defer cancel()
 	var c *channel
 	var t *vhTransport
-	switch vhChoice("end", 4) {
+	switch vhChoice("end", 5) {
 	case 0, 1:
 		t = &vhTransport{depth: 0, enc: SessionEncryptionNone, comp: SessionCompressionNone, sendFails: true}
 		sc := NewServerChannel(t, 1, Node{Identity{"postmaster", "srv"}, "s1"}, vhSID)
@@ -140,6 +140,10 @@ func HarnessC06AfterEnd() {
 		terminal := SessionStateFinished
 		if vParam("end", 2) == 3 {
 			terminal = SessionStateFailed
+		}
+		if vParam("end", 2) == 4 {
+			// a session envelope that moves backwards also ends the session
+			terminal = SessionStateAuthenticating
 		}
 		t = &vhTransport{depth: 1, enc: SessionEncryptionNone, comp: SessionCompressionNone}
 		t.rx = func(*vhTransport) (envelope, error) {
